@@ -261,7 +261,16 @@ fn generate(seed: u64, tier: Tier, em: &mut Emitter) {
     // seeded random well-typed element-wise programs
     let mut rng = seed_mix(seed, 0xC02_0002);
     let count = if tier == Tier::Quick { 800 } else { 9000 };
+    let mut big: Vec<BigCase> = vec![];
+    for (i, (n, p)) in big_grid(tier != Tier::Quick).into_iter().enumerate() {
+        if tier != Tier::Quick || i < 3 {
+            big.push(("bigprog", range_src(Shape::U, n), big_chain(), Mode::Par(p)));
+        }
+    }
+    big.push(("bigprog", range_src(Shape::U, 70_001), big_chain(), Mode::Seq));
+    let mut spread = Spread::new(big, count);
     for _ in 0..count {
+        spread.step(em);
         let n = if rng.chance(1, 3) { rng.below(4) as usize } else { rng.below(25) as usize };
         let src = gen_src(&mut rng, n, true, true);
         let parts = rng.below(src.len() as u64 + 3) as usize;
@@ -285,11 +294,13 @@ fn generate(seed: u64, tier: Tier, em: &mut Emitter) {
         }
         emit(em, &src, &steps, mode, &["random"]);
     }
+    spread.finish(em);
 }
 
 fn run(kind: &str, input: &Value) -> Value {
     match kind {
         "prog" => run_prog_case(input, DIR),
+        "bigprog" => run_bigprog_case(input, DIR),
         "failfast" => run_failfast_case(input, DIR),
         "branch" => run_branch_case(input, DIR),
         _ => serde_json::json!(["invalid"]),
